@@ -190,5 +190,7 @@ def run_c03(ctx, fa):
                 "index positions; replayed into schemaless_reader (returned and skipped), every union/enum index replaced by 6 out-of-range "
                 "values, every proper prefix (all offsets up to 300 bytes, structural and sampled beyond); non-trivial = non-empty encoding")
     from . import p_binary
+    from . import p_suite
     p_binary.model_and_replay(ctx, fa, ("C03.",))
     run(ctx, fa, lambda p: p == "C03.")
+    p_suite.run(ctx, {"t_sl_read"}, ("C03.",))
